@@ -23,15 +23,29 @@ Definition centres (c : wlcfg) : list Q := map (centre c) (seq 0 (nb_actual c)).
 (* WangLandauMachine.__init__ (NORMAL run): the geometry derived from the requested range [bmin, bmax] cut into
    nb bins: binWidth = (bmax - bmin) / nb, nbins_actual = round(1 / binWidth), relevant_min = argmin over the
    centres of |centre - (bmin + binWidth / 2)| (numpy argmin: the first minimum) *)
-Definition geom_of (nb : nat) (bmin bmax : Q) : nat * nat :=
-  let w := (bmax - bmin) / inject_Z (Z.of_nat nb) in
-  let na := Z.to_nat (Qfloor (1 / w + (1 # 2))) in
+(* Python's round(): to the nearest integer, exact halves to the even neighbour *)
+Definition round_half_even (x : Q) : Z :=
+  let fl := Qfloor x in
+  let fr := (x - inject_Z fl)%Q in
+  if Qle_bool fr (1 # 2) then (if Qeq_bool fr (1 # 2) then (if Z.even fl then fl else fl + 1)%Z else fl) else (fl + 1)%Z.
+Definition is_half (x : Q) : bool := Qeq_bool (x - inject_Z (Qfloor x)) (1 # 2).
+
+Definition rmin_of (na : nat) (w bmin : Q) : nat :=
   let target := bmin + w / 2 in
   let dist (i : nat) := Qabs ((Z.of_nat (2 * i + 1) # Pos.of_nat (2 * na)) - target) in
-  (na, fold_left (fun best i => if Qle_bool (dist best) (dist i) then best else i) (seq 1 (na - 1)) 0%nat).
+  fold_left (fun best i => if Qle_bool (dist best) (dist i) then best else i) (seq 1 (na - 1)) 0%nat.
 
+Definition geom_of (nb : nat) (bmin bmax : Q) : nat * nat :=
+  let w := (bmax - bmin) / inject_Z (Z.of_nat nb) in
+  let na := Z.to_nat (round_half_even (1 / w)) in
+  (na, rmin_of na w bmin).
+
+(* what the machine may hold: the geometry of the requested range; when 1 / binWidth is an exact half the float quotient may
+   land on either side of it, so either neighbour is accepted there *)
 Definition geom_ok (c : wlcfg) (bmin bmax : Q) : bool :=
-  let '(na, r) := geom_of (nb_target c) bmin bmax in Nat.eqb (nb_actual c) na && Nat.eqb (rmin c) r.
+  let w := (bmax - bmin) / inject_Z (Z.of_nat (nb_target c)) in
+  let ok (na : nat) := Nat.eqb (nb_actual c) na && Nat.eqb (rmin c) (rmin_of na w bmin) in
+  if is_half (1 / w) then ok (Z.to_nat (Qfloor (1 / w))) || ok (Z.to_nat (Qfloor (1 / w) + 1)) else ok (fst (geom_of (nb_target c) bmin bmax)).
 
 Record wlst := {
   cur : list aa;        (* current sequence *)
